@@ -324,24 +324,8 @@ def rule_cap(ctx):
     # record caps: shared with C01.RSL
     from . import c01
     sub = _Relabel(ctx, "C01.RSL", "C08.CAP")
-    rs = ctx.index.func("recordlayer:RecordSocket.recv")
-    gg = ctx.an.cfg(rs)
-    body = [n for n in consumes_of(gg, "_sockRecvAll") if "record.length" in norm(n.call)]
-    tests = [t for t in gg.nodes if t.kind == "test" and "record.length >" in norm(t.expr)]
-    eff = [t for t in tests if "T" in dead_edge_labels(gg, t, body)]
-    ctx.check(R, len(eff) == 2 and bool(body), rs.qname, "record length capped before the body is read (allocation bound)",
-              "the record body is read (allocated) before the declared length was checked against the limits", rs.loc())
-    from ..condeval import check_cond
-    for t in eff:
-        if "tls13record" in norm(t.expr):
-            check_cond(ctx, R, rs, t.ast, t.expr, {"self.tls13record": [True, False], "record.length": [100, 16640, 16641, 70000],
-                                                    "self.recv_record_limit": [16384]},
-                       lambda e: e["self.tls13record"] and e["record.length"] > 16384 + 256,
-                       "TLS 1.3 ciphertext cap = limit + 256", "TLS 1.3 records longer than limit + 256 must be refused", closed=True)
-        else:
-            check_cond(ctx, R, rs, t.ast, t.expr, {"record.length": [100, 18432, 18433, 70000], "self.recv_record_limit": [16384]},
-                       lambda e: e["record.length"] > 16384 + 2048,
-                       "ciphertext cap = limit + 2048", "records longer than limit + 2048 must be refused", closed=True)
+    from .common import recv_length_caps
+    recv_length_caps(ctx, R)
 
 
 def rule_index_gates(ctx):
